@@ -51,7 +51,13 @@ impl FileOperations for WriteAheadLog {
         // Read block 0 (global header)
         let mut header_buf: BlockZero = BlockZero::new(default_block_size);
         file.seek(SeekFrom::Start(0))?;
-        file.read_exact(header_buf.as_mut())?;
+        if file.metadata()?.len() < default_block_size as u64 {
+            // The file was created or truncated but its header block never reached the disk
+            // (crash right after create or in the middle of a checkpoint): that is an empty log.
+            header_buf = BlockZero::alloc(0, default_block_size);
+        } else {
+            file.read_exact(header_buf.as_mut())?;
+        }
 
         // Usar el block_size del archivo, o el default si es 0
         let block_size = header_buf.metadata().wal_header.block_size as usize;
@@ -155,7 +161,8 @@ impl WriteAheadLog {
         let mut result = AnalysisResult::default();
 
         let total_blocks = self.header.metadata().wal_header.total_blocks;
-        if total_blocks == 0 {
+        // Nothing on disk yet (created or truncated, header block not written): an empty log.
+        if total_blocks == 0 || self.file.metadata()?.len() < self.block_size as u64 {
             return Ok(result);
         }
 
